@@ -875,6 +875,16 @@ fn special_tables() -> Vec<(&'static str, Vec<Spec>, Vec<Vec<u8>>)> {
             .collect(),
         vec![b"k".to_vec(), b"k3".to_vec(), b"k30".to_vec(), b"k5".to_vec(), b"k6".to_vec(), b"k8".to_vec()],
     ));
+    // fourteen entries of 4.2 KiB: with the minimum target file size SstMultiBuilder cuts one
+    // output file per entry, i.e. more than ten files (0.sst .. 13.sst: the files must come back
+    // in the order in which they were cut, which is not the lexicographic order of their names)
+    v.push((
+        "multiblock-fourteen-files",
+        (0..14u8)
+            .map(|i| Spec { key: Bytes::Lit(vec![b'k', b'a' + i]), ts: 5, value: Some(Bytes::Generated { seed: 40 + i, len: 4200 }) })
+            .collect(),
+        vec![b"k".to_vec(), b"kb".to_vec(), b"kk".to_vec(), b"kn".to_vec(), b"kz".to_vec()],
+    ));
     // one key whose versions straddle several blocks (dividing keys differ only in the timestamp)
     {
         let mut s = vec![mk_spec(b"", 1, Small, 1)];
